@@ -175,6 +175,10 @@ def run(rep: vlib.Reporter, tier: str, seed: int) -> None:
         found = True
     dist["flight_store_atomicity"] = {"problems": len(fa), **getattr(flight_atomic.check, "stats", {})}
     n_eval += getattr(flight_atomic.check, "stats", {}).get("gets", 0)
+    # one polymorphic Link used by two concrete pairs: SYNC vs gated THREADING (harness/polylink.py; recorded finding)
+    from harness import polylink
+    found |= polylink.check(rep, "C06")
+    n_eval += 2
     stop_flight_server()
     rq_probs, rq_case = worker_proto.requeue_case_result(requeue_procs, "C06")
     for p_ in rq_probs:
@@ -209,6 +213,9 @@ def replay(path: str) -> int:
     if r.get("kind") == "worker_proto":
         from harness import worker_proto
         return worker_proto.replay_main(r, "C06")
+    if r.get("kind") == "polylink":
+        from harness import polylink
+        return polylink.replay(r)
     if r.get("kind") == "flight-atomic":
         from harness import flight_atomic
         print(flight_atomic.check(20))
